@@ -47,6 +47,7 @@ type C06Unit struct {
 	Panics    bool          `json:"panics"`
 	Double    int           `json:"double"`
 	MaxReads  int           `json:"max_reads"`
+	MaxWrites int           `json:"max_writes,omitempty"` // 0 = all
 	Seed      int64         `json:"seed"`
 }
 
@@ -69,8 +70,18 @@ func (c06) Units(tier string, seed int64) ([]core.Unit, error) {
 	rng := rand.New(rand.NewPCG(uint64(seed), 0xC06))
 	for _, cfg := range installConfigs() {
 		u := C06Unit{Cfg: cfg, Seed: int64(rng.Uint64() >> 1), MaxReads: 4, Double: 12}
+		sheets := strings.HasPrefix(cfg.Op, "sheets-")
 		if tier != "quick" {
 			u.AllErrnos, u.Panics, u.Double, u.MaxReads = true, true, 120, 30
+			if sheets {
+				u.AllErrnos, u.Double = false, 30 // one run costs seconds (the sheets are rendered before they are published)
+			}
+		} else if sheets {
+			// quick: the single-font workload in all three relations (the batches are thorough-only)
+			if cfg.Op != "sheets-demo1" {
+				continue
+			}
+			u.MaxReads, u.MaxWrites, u.Double = 1, 2, 3
 		}
 		b, _ := json.Marshal(u)
 		units = append(units, b)
@@ -354,7 +365,7 @@ func (c06) RunUnit(raw core.Unit, tier string, seed int64) core.UnitResult {
 	} else {
 		res.Violations = append(res.Violations, installOracle(ref, ref, nil, false)...)
 	}
-	core01 := C01Unit{MaxReads: u.MaxReads, MaxWrites: 0, AllErrnos: u.AllErrnos}
+	core01 := C01Unit{MaxReads: u.MaxReads, MaxWrites: u.MaxWrites, AllErrnos: u.AllErrnos}
 	var faults []simfs.Fault
 	for _, f := range faultsFor(rec.Events, core01, rng) {
 		switch f.Kind {
